@@ -1130,7 +1130,8 @@ ws_read_cb(void *arg)
 		// For message mode, also check to make sure that the overall
 		// length of the message has not exceeded our recvmax.
 		// (Protect against an infinite stream of small messages!)
-		if ((!ws->isstream) && (ws->recvmax > 0)) {
+		if ((!ws->isstream) && (ws->recvmax > 0) &&
+		    ((frame->head[0] & 0x08u) == 0)) { // (data frames only)
 			size_t    totlen = frame->len;
 			ws_frame *fr2;
 			NNI_LIST_FOREACH (&ws->rxq, fr2) {
